@@ -41,8 +41,18 @@ __attribute__((noinline)) void verif_model_pop(std::string* ret, queue_wrapper<s
     if (ret->empty()) self->m_queue.m_in_use = false;
 }
 // model of add_to_queue<Buffer>(queue, Buffer&&): record the committed bytes handed downstream
+static int g_summary = 0;      // 1: record (buffer marker, then type and id of every entity) instead of the raw bytes
+static void record_buffer(const osmium::memory::Buffer& b) {
+    if (!g_summary) { record(b.data(), b.committed()); return; }
+    const unsigned long mark = 0xb0fUL; record(&mark, 8);
+    for (const auto& item : b) {
+        const unsigned long t = static_cast<unsigned long>(item.type()); record(&t, 8);
+        const long id = (item.type() == osmium::item_type::changeset) ? static_cast<long>(static_cast<const osmium::Changeset&>(item).id()) : static_cast<const osmium::OSMObject&>(item).id();
+        record(&id, 8);
+    }
+}
 __attribute__((noinline)) void verif_model_send(void*, osmium::memory::Buffer* b) {
-    record(b->data(), b->committed());
+    record_buffer(*b);
 }
 }
 
@@ -62,7 +72,7 @@ struct NativeEnv {
         while (outq.size() > 0) {
             std::future<osmium::memory::Buffer> f; outq.wait_and_pop(f);
             osmium::memory::Buffer b = f.get();
-            if (b) record(b.data(), b.committed());
+            if (b) record_buffer(b);
         }
     }
 };
@@ -149,6 +159,41 @@ ENTRY int verif_pbf_frames(const char* data, unsigned len, const unsigned* cuts,
             record(&n, 4); record(blob.data(), blob.size());
         }
     } catch (const osmium::pbf_error&) { rc = 1; } catch (const std::exception&) { rc = 2; }
+    *outlen = g_outlen;
+    return rc;
+}
+
+// ---------------------------------------------------------------- OPL: the whole parser (line splitting, opl_parse_line, buffer hand-over) for C05
+// mask: entity bits to read; single: buffers_type::single.  Output: per delivered buffer a marker word, then (type, id) of every entity.
+// rc 0 ok, 1 opl_error, 2 other
+ENTRY int verif_opl_run(const char* data, unsigned len, const unsigned* cuts, unsigned ncuts, unsigned mask, int single, unsigned char* out, unsigned outcap, unsigned* outlen) {
+    env_init(data, len, cuts, ncuts, out, outcap);
+    g_summary = 1;
+    int rc = 0;
+#ifdef VERIF_NATIVE
+    NativeEnv env;
+    env.args.read_which_entities = static_cast<osmium::osm_entity_bits::type>(mask);
+    env.args.buffers_kind = single ? osmium::io::buffers_type::single : osmium::io::buffers_type::any;
+    OPLParser parser{env.args};
+    OPLParser* p = &parser;
+#else
+    struct Raw { alignas(OPLParser) unsigned char mem[sizeof(OPLParser)]; } raw; std::memset(raw.mem, 0, sizeof(raw.mem));
+    auto* p = reinterpret_cast<OPLParser*>(raw.mem);
+    RawQ rq; SQ* q = raw_queue(rq);
+    new (&p->m_input_queue) queue_wrapper<std::string>{*q};
+    new (&p->m_buffer) osmium::memory::Buffer{256, osmium::memory::Buffer::auto_grow::internal};
+    p->m_buffers_kind = single ? osmium::io::buffers_type::single : osmium::io::buffers_type::any;
+    p->m_last_type = osmium::item_type::undefined;
+    p->m_read_which_entities = static_cast<osmium::osm_entity_bits::type>(mask);
+    p->m_read_metadata = osmium::io::read_meta::yes;
+    p->m_header_is_done = true;
+    p->m_line_count = 0;
+#endif
+    try { line_by_line(*p); p->flush_final_buffer(); } catch (const osmium::opl_error&) { rc = 1; } catch (const std::exception&) { rc = 2; }
+#ifdef VERIF_NATIVE
+    env.drain();
+#endif
+    g_summary = 0;
     *outlen = g_outlen;
     return rc;
 }
